@@ -100,6 +100,46 @@ def run(tier):
                     needles.append({"name": "session-key", "bytes": B(key)})
                 if needles:
                     rec.add({"op": "c06.scan", "text": L.chars(text), "needles": needles})
+        # components marked for encryption in every way the object model allows: declared length given / not given (None),
+        # with the ENC tag, without it, with a 2-byte ENC value, with an empty description - the FLAG decides, and the stored
+        # payload must be ciphertext of the zero-padded content in all cases
+        for n in (5, 16, 21, 33):
+            for desc in (CFG_DESC, {0xC3: b"\x03"}, {}, {0xC2: b"\x02\x00"}, {0xC2: b"\x00"}):
+                for alen in (None, n):
+                    blob = content(r, n, "rnd")
+                    key = L.gen_key(r)
+                    f = Bf3File({}, [L.mk_comp(desc, blob, alen, True)])
+                    L.rec_to_binary(rec, f, 5, key)
+                    text = L.rec_write(rec, f, key, False, wd)
+                    nd = needle_of(blob)
+                    if nd and text:
+                        rec.add({"op": "c06.scan", "text": L.chars(text), "needles": [{"name": "configuration-plaintext", "bytes": B(nd)}]})
+        # histories on ONE object: write, replace the configuration (set_config) or the blob, write again with the SAME key:
+        # the second file must carry the ciphertext of the CURRENT content
+        for _ in range(12 if tier == "quick" else 150):
+            f, cfg = real_set_config_file(r)
+            key = L.gen_key(r)
+            L.rec_to_binary(rec, f, 5, key)
+            text1 = L.rec_write(rec, f, key, False, wd)
+            for _step in range(r.choice([1, 2])):
+                if r.random() < 0.7:
+                    cfg = {(r.randrange(0x10000), r.randrange(0xFF)): bytes(r.randrange(1, 256) for _ in range(r.choice([2, 9, 40])))}
+                    f.set_config(cfg)
+                else:
+                    comp = f.components[-1]
+                    comp.blob = bytes(r.randrange(1, 256) for _ in range(len(comp.blob)))
+                L.rec_to_binary(rec, f, 5, key)
+                text = L.rec_write(rec, f, key, False, wd)
+                L.rec_read(rec, text, key, True, False, wd, auth=L.proj_file(f))
+            # and the object read back from the first file, edited and written again
+            try:
+                g = L.Bf3File.read_file(io.StringIO(text1), True, key)
+                g.comments["x"] = "y"
+                L.rec_to_binary(rec, g, 5, key)
+                t2 = L.rec_write(rec, g, key, False, wd)
+                L.rec_read(rec, t2, key, True, False, wd, auth=L.proj_file(g))
+            except Exception:                              # noqa: BLE001 -- a failing read is judged by the read events above
+                pass
         # components produced by the real set_config
         for _ in range(20 if tier == "quick" else 300):
             f, cfg = real_set_config_file(r)
